@@ -122,6 +122,8 @@ Definition valid_res (o : op) (r : res) : bool :=
   | (Out _ _ | Log _ _ _), _ => false
   (* os.path.exists/lexists/isdir/isfile/islink/ismount, os.access and os.isatty never raise: they answer False *)
   | (Lexists _ | Exists _ | Isdir _ | Isfile _ | Islink _ | Ismount _ | Access _ | IsAtty), RErr _ => false
+  (* neither do the clock and the random generator *)
+  | (Now | RandInt _ _), RErr _ => false
   | _, RErr (OSError _) => true
   | Move _ _, RErr ShutilError => true
   | ReadText _, RErr UnicodeDecodeError => true
